@@ -376,4 +376,116 @@ class IourDriver:
                 obs.append(("older operation %#x untouched when the queue had room at once" % k, z3.BoolVal(W.leaked[k] == 1 and k in W.in_flight)))
         return obs
 
-    CHECKS = ["poll_entries", "drop", "push"]
+    def check_blocking(self, p):
+        """push_blocking + the job it hands to the thread pool + poll_blocking: the fallback path of operations the ring cannot
+        run (and of every Asyncify operation)."""
+        W = self.world(p, 0, 0)
+        key = ("key", 0x7000)
+        W.rejections = p.choose(3, "times the pool answers 'all threads are busy' first")
+        W.dispatched, W.sent, W.channel, W.wakes, W.notified, W.frozen, W.calls = [], [], [], 0, [], 0, 0
+        W.job_panics = p.choose(2, "the blocking call panics?") == 1
+        closures = []
+
+        def s_waker(I, a, pth, c):
+            return ("driver-waker",)
+
+        def s_clone_sender(I, a, pth, c):
+            return ("completed-tx",)
+
+        def s_freeze(I, a, pth, c):
+            W.frozen += 1
+            return ("frozen", a[0])
+
+        def s_dispatch(I, a, pth, c):
+            clo = a[1]
+            closures.append(clo)
+            if len(closures) <= W.rejections:
+                return EnumV(1, [Cell(Struct({0: Cell(clo)}))])      # Err(DispatchError(closure)): handed back intact
+            W.dispatched.append(clo)
+            return EnumV(0, [Cell(UNIT)])
+
+        def s_yield(I, a, pth, c):
+            return UNIT
+
+        def s_catch_unwind_io(I, a, pth, c):
+            W.calls += 1
+            if W.job_panics:
+                return EnumV(1, [Cell(("io-error", "panic payload"))])     # a panic comes back as an io::Error carrying the payload
+            clo = a[0]
+            while isinstance(clo, Struct) and not hasattr(clo, "span"):      # AssertUnwindSafe(closure)
+                clo = clo.f[0].v
+            r = yield from I.call_closure(clo, [], pth)
+            return r
+
+        def s_as_mut(I, a, pth, c):
+            return Ref(Cell(Lazy({}, "frozen-op")))
+
+        def s_call_blocking(I, a, pth, c):
+            return EnumV(0, [Cell(z3.BitVecVal(7, 64))])
+
+        def s_into_inner(I, a, pth, c):
+            v = a[0]
+            return v[1] if isinstance(v, tuple) and v[0] == "frozen" else v
+
+        def s_entry_new2(I, a, pth, c):
+            return Struct({0: Cell(a[0]), 1: Cell(a[1])})
+
+        def s_send(I, a, pth, c):
+            W.sent.append(a[1])
+            W.channel.append(a[1])
+            return EnumV(0, [Cell(UNIT)])
+
+        def s_wake(I, a, pth, c):
+            W.wakes += 1
+            W.wake_after_send = len(W.sent)
+            return UNIT
+
+        def s_try_recv(I, a, pth, c):
+            if W.channel:
+                return EnumV(0, [Cell(W.channel.pop(0))])
+            return EnumV(1, [Cell(("empty",))])
+
+        def s_notify2(I, a, pth, c):
+            W.notified.append(a[0])
+            return UNIT
+
+        extra = [
+            (r"^(?:driver::iour::)?Driver::waker$", s_waker), (r"^<flume::Sender<Entry> as Clone>::clone$", s_clone_sender),
+            (r"^ErasedKey::freeze$", s_freeze), (r"AsyncifyPool::dispatch::<", s_dispatch), (r"^yield_now$", s_yield),
+            (r"^catch_unwind_io::<", s_catch_unwind_io), (r"^FrozenKey::as_mut$", s_as_mut), (r"Carry>::call_blocking$", s_call_blocking),
+            (r"^FrozenKey::into_inner$", s_into_inner), (r"^Entry::new$", s_entry_new2), (r"^flume::Sender::<Entry>::send$", s_send),
+            (r"^std::task::Waker::wake$|^Waker::wake$", s_wake), (r"^flume::Receiver::<Entry>::try_recv$", s_try_recv),
+            (r"^Entry::notify$", s_notify2),
+        ]
+        fn = self.F("::push_blocking")
+        I = self.interp(W, fn)
+        import re as _re
+        I.summ = [(_re.compile(pat), f) for pat, f in extra] + I.summ
+        drv = self.driver_obj(W)
+        I.run_to_end(I.call_fn(fn, [Ref(Cell(drv)), key], p))
+        obs = [("the key is frozen exactly once for the pool thread", z3.BoolVal(W.frozen == 1)),
+               ("a job the pool hands back is offered again until it is accepted: never dropped, accepted exactly once",
+                z3.BoolVal(len(W.dispatched) == 1 and len(closures) == W.rejections + 1)),
+               ("every offer is the same job", z3.BoolVal(all(c is closures[0] for c in closures)))]
+        # the pool thread runs the accepted job
+        if W.dispatched:
+            I.run_to_end(I.call_closure(W.dispatched[0], [], p))
+            obs.append(("the job runs the blocking call exactly once", z3.BoolVal(W.calls == 1)))
+            obs.append(("the job reports exactly one completion, for this operation's key", z3.BoolVal(
+                len(W.sent) == 1 and isinstance(W.sent[0], Struct) and W.sent[0].f[0].v == key)))
+            if W.sent:
+                res = W.sent[0].f[1].v
+                if W.job_panics:
+                    obs.append(("a panicking call is reported as an error carrying the panic, not lost",
+                                z3.BoolVal(isinstance(res, EnumV) and res.variant == 1)))
+                else:
+                    obs.append(("the call's result is reported unchanged", z3.BoolVal(isinstance(res, EnumV) and res.variant == 0)))
+            obs.append(("the driver is woken after the completion was sent", z3.BoolVal(W.wakes == 1 and getattr(W, "wake_after_send", 0) == 1)))
+            # the runtime thread reaps it
+            I.run_to_end(I.call_fn(self.F("::poll_blocking"), [Ref(Cell(drv))], p))
+            obs.append(("poll_blocking notifies every received completion exactly once and leaves the channel empty",
+                        z3.BoolVal(len(W.notified) == 1 and isinstance(W.notified[0], Struct) and W.notified[0].f[0].v == key and not W.channel)))
+        self.encoded |= I.called
+        return obs
+
+    CHECKS = ["poll_entries", "drop", "push", "blocking"]
